@@ -278,6 +278,60 @@ def gen_all_bad(rng):
                     "all-bad")
 
 
+def gen_combo_case(rng):
+    """-t without -m (argp.error, exit status 2) together with 0-3 counted usage errors: the invalid
+    combination is reported first, whatever else is wrong with the call."""
+    tree = {"dirs": ["lib", "out"], "files": {"lib/A.mo": TEMPLATES["A"], "lib/notes.txt": "x\n"}, "bin": {}}
+    paths, outdir, options = ["lib"], rng.choice([None, "out"]), []
+    for what in rng.sample(["path", "outdir", "opt"], rng.randint(0, 3)):
+        if what == "path":
+            for _ in range(rng.randint(1, 2)):
+                paths.insert(rng.randint(0, len(paths)), rng.choice(["nope", "lib/Nope.mo", "zz.mo"]))
+        elif what == "outdir":
+            outdir = rng.choice(["nonexistent_out", "lib/notes.txt"])
+        else:
+            options = [rng.choice(OPTS_BAD) for _ in range(rng.randint(1, 2))]
+    return assemble(rng, tree, paths, outdir, rng.choice(["sympy", "casadi"]), [], options,
+                    rng.choice(["", "-v"]), "t-without-m+usage")
+
+
+SEQ_LIB = {"lib/A.mo": TEMPLATES["A"], "lib/C.mo": TEMPLATES["C"], "lib/P.mo": TEMPLATES["P"],
+           "src/Base.mo": "model Base\n  Real b(start=1);\nequation\n  der(b) = -b;\nend Base;\n",
+           "src/Derived.mo": "model Derived\n  extends Base;\n  Real d;\nequation\n  d = 2*b;\nend Derived;\n"}
+
+
+def gen_sequence(rng, variant=None):
+    """Two or three invocations sharing one -o directory: the earlier ones succeed and leave their
+    outputs; then a source is deleted / the PATH changes / a foreign .py lies in the directory.  Every
+    invocation is judged by the count alone, whatever the directory held before."""
+    variant = variant or rng.choice(["delete", "delete3", "path", "foreign", "delete-none"])
+    tree = {"dirs": ["lib", "src", "out"], "files": dict(SEQ_LIB), "bin": {}}
+    target = None if variant == "delete-none" else "sympy"
+    t = (["-t", "sympy"] if target else []) + ["-o", "out"]
+    pre, delete = [], []
+    if variant in ("delete", "delete-none"):
+        if rng.random() < 0.5:
+            paths, models, delete = ["lib"], ["C", "A"], ["lib/A.mo"]
+        else:
+            paths, models, delete = ["src", "lib"], ["Derived", "P.N"], ["src/Base.mo"]
+        pre = [paths + t + [x for m in models for x in ("-m", m)]]
+    elif variant == "delete3":
+        paths, models, delete = ["lib", "src"], ["C", "Derived", "A"], ["lib/A.mo", "src/Base.mo"]
+        pre = [paths + t + ["-m", "C", "-m", "Derived"], paths + t + ["-m", "A"]]
+    elif variant == "path":
+        models = ["Derived"] if rng.random() < 0.5 else ["C"]
+        full = ["src"] if models == ["Derived"] else ["lib"]
+        paths = ["src/Derived.mo"] if models == ["Derived"] else ["lib/C.mo", "lib/P.mo"]
+        pre = [full + t + ["-m", models[0]]]
+    else:   # a <Model>.py that some other tool / project left in the directory (written after the sources)
+        paths, models = ["lib"], ["Zed", "A"]
+        tree["files"]["out/Zed.py"] = "# not generated from these sources\n"
+    pre_ = list(paths) + t
+    return {"tree": tree, "argv": pre_ + [x for m in models for x in ("-m", m)], "argv_pre": pre_, "argv_post": [],
+            "paths": paths, "outdir": "out", "target": target, "models": models, "options": [], "argparse": "ok",
+            "scenario": "sequence:" + variant, "solo": False, "pre": pre, "delete": delete}
+
+
 def corpus():
     """Fixed invocations: one per mechanism, so every seed exercises every `errors +=` site."""
     T = TEMPLATES
@@ -399,6 +453,10 @@ def judge(case, res):
             tag = KNOWN_TAG
         return (tag, "main(%s) raised %s (%s); the property demands exit status %d"
                 % (case["argv"], ob.get("cls"), ob.get("msg", "")[:80], want))
+    for i, po in enumerate(res.get("pre_observed") or []):
+        if po.get("exit") != 0:
+            return ("sequence-earlier-run", "earlier invocation %s of the sequence gave %s, expected exit status 0"
+                    % (case["pre"][i], po))
     if ob["exit"] != want:
         return ("wrong-exit", "main(%s) exit status %d, the count of usage errors / unparsable files / failing "
                 "models is %d" % (case["argv"], ob["exit"], want))
@@ -535,7 +593,9 @@ def extract_skeleton(path):
 
     def L(xs):
         return "[" + "; ".join(xs) + "]"
-    term = ("(Skel %d%%nat %d%%nat %d%%nat %d%%nat (%s) %d%%nat %d%%nat %d%%nat %d%%nat %d%%nat %d%%nat %s %s %s %s)"
+    if order_probe(path) is not True:
+        raise Unrecognised("position of the argp.error(-t without -m) block")
+    term = ("(Skel true %d%%nat %d%%nat %d%%nat %d%%nat (%s) %d%%nat %d%%nat %d%%nat %d%%nat %d%%nat %d%%nat %s %s %s %s)"
             % (table["k_outdir"], table["k_path"], table["k_opt"], table["k_nofiles_s"], table["k_parse"],
                table["k_translate"], table["k_flatten"], table["k_nofiles_c"], table["k_ambig"], table["k_nodir"],
                table["k_transfer"], L(hs["h_parse"][0][1]), L([L(c) for c in tr]), L(hs["h_flatten"][0][1]),
@@ -544,6 +604,32 @@ def extract_skeleton(path):
     info.update({"h_parse": hs["h_parse"][0][1], "h_translate": tr, "h_flatten": hs["h_flatten"][0][1],
                  "h_transfer": hs["h_transfer"][0][1]})
     return term, info
+
+
+def order_probe(path):
+    """Where does `argp.error(...)` for -t without -m stand relative to `if errors: return errors` in main?
+    True = before (the invalid combination wins over counted usage errors), False = after, None = not found."""
+    try:
+        mod = pyast.parse(open(path).read())
+    except (OSError, SyntaxError):
+        return None
+    fn = [n for n in mod.body if isinstance(n, pyast.FunctionDef) and n.name == "main"]
+    if not fn:
+        return None
+    i_err = i_ret = None
+    for i, st in enumerate(fn[0].body):
+        if not isinstance(st, pyast.If):
+            continue
+        src = pyast.unparse(st.test)
+        if i_err is None and "args.target" in src and "args.model" in src and any(
+                isinstance(x, pyast.Expr) and isinstance(x.value, pyast.Call)
+                and pyast.unparse(x.value.func) == "argp.error" for x in st.body):
+            i_err = i
+        if i_ret is None and src == "errors" and any(isinstance(x, pyast.Return) for x in st.body):
+            i_ret = i
+    if i_err is None or i_ret is None:
+        return None
+    return i_err < i_ret
 
 
 def _dump_reference(path="/repo/tools/compiler.py"):
@@ -593,6 +679,10 @@ def tie(ctx):
     """S1: regenerate the table, check its side condition by vm_compute.  Returns the Gallina term of
     the table the correspondence uses."""
     src = core.REPO + "/tools/compiler.py"
+    order = order_probe(src)
+    ctx.notes["tie_argp_error_before_counted_errors"] = order
+    ctx.oblige("tie:argp.error(-t without -m) stands before `if errors: return errors` (model: Exit 2 first)",
+               order is not False, "the invalid-combination check comes after the early return on counted errors")
     try:
         term, info = extract_skeleton(src)
     except Unrecognised as e:
@@ -683,7 +773,7 @@ def signature(case, res):
 def make_cases(ctx, casadi_bias=False):
     cases = corpus()
     n_corpus = len(cases)
-    n_rand = ctx.scaled(40, 1800)
+    n_rand = ctx.scaled(34, 1800)
     n_casadi = ctx.scaled(6, 120)
     n_arg = ctx.scaled(9, 60)
     n_und = ctx.scaled(2, 12)
@@ -698,6 +788,12 @@ def make_cases(ctx, casadi_bias=False):
     # only unparsable files; more of them when the source shape (parse_all included) is not recognised
     for _ in range(ctx.scaled(5, 80) + (ctx.scaled(15, 100) if casadi_bias else 0)):
         cases.append(gen_all_bad(ctx.rng))
+    for v in ("delete", "delete3", "path", "foreign", "delete-none"):
+        cases.append(gen_sequence(ctx.rng, v))
+    for _ in range(ctx.scaled(3, 60) + (ctx.scaled(10, 60) if casadi_bias else 0)):
+        cases.append(gen_sequence(ctx.rng))
+    for _ in range(ctx.scaled(8, 80) + (ctx.scaled(12, 80) if casadi_bias else 0)):
+        cases.append(gen_combo_case(ctx.rng))
     for _ in range(n_arg):
         cases.append(gen_argparse_case(ctx.rng))
     for _ in range(n_und):
